@@ -600,3 +600,18 @@ package system
 //@   ensures dt.l == dtYearLayout ==> res.Precision == dtpb.DateTime_YEAR
 // the element's zone text is that of the DateTime's own time value (offset preserved)
 //@   ensures res.Timezone == tzS(dt.dateTime)
+//
+// ---- C15: string literal decoding ---------------------------------------------------------------
+// Decided here: decoding never fails or reads out of range, and a literal without a backslash
+// denotes exactly its text between the quotes ("all other characters intact" for escape-free
+// literals). What each escape decodes to is not specified (strings.Builder is not modelled).
+//@ func ParseString(input) (res, err)
+//@   let body = trimQuotes(input)
+//@   ensures err == nil
+//@   ensures !strcontains(body, "\\") ==> string(res) == body
+//@   loop 1:
+//@     invariant 0 <= i && i <= len(input)
+//@ func hexUnit(s, at) (res, ok)
+//@   requires at <= len(s)
+//@   ensures ok ==> 0 <= at && at + 4 <= len(s)
+//@   assigns nothing
